@@ -1047,3 +1047,35 @@ def run(ctx) -> None:  # noqa: F811
              "the CTF to its components.  chi(alpha, phi) evaluated with the two exchanged is another function")
     _angle_forwarding(ctx)
     _inner_run_c21b(ctx)
+
+
+# ---- added after the seeded change C21-r7seed3: `defocus = -C10` member by member also for distributions
+_inner_run_c21_r7 = run
+
+
+def run(ctx) -> None:  # noqa: F811
+    from ..model import AnalysisError as _AE
+    from . import c36
+
+    ctx.rule("R-NEG", "(shared with C36; the rule lives in c36) the defocus alias is stored as C10 = -defocus and read "
+             "back as -C10.  For a defocus given as a distribution the unary minus is DistributionFromValues.__neg__ / "
+             "MultidimensionalDistribution.__neg__: the result must hold values = -values in the same order, with the "
+             "receiver's weights and ensemble_mean (term normal forms of the constructor arguments; a reversal or "
+             "re-ordering such as `values[::-1]` is a different term).  Otherwise member i of the aberration function "
+             "is evaluated with the defocus of another member")
+    pending = None
+    try:
+        repo = ctx.repo
+        cls = repo.cls(c36.MOD, c36.DFV)
+        neg = repo.method(c36.MOD, c36.DFV, "__neg__")
+        n = 0
+        for detail, ok, good, bad, node in c36.operator_contract(repo, cls, neg):
+            n += 1
+            ctx.check(ok, "R-NEG", f"{neg.qualname}:{detail}", neg.loc(node), good, bad, key_detail=detail)
+        ctx.require(n >= 3, f"R-NEG examined only {n} constructor fields")
+        c36._check_multi_neg(ctx, repo, repo.cls(c36.MOD, c36.MULTI))
+    except _AE as e:
+        pending = e
+    _inner_run_c21_r7(ctx)
+    if pending is not None:
+        raise pending
